@@ -342,6 +342,17 @@ Definition ires_eqb (a b : ires) : bool :=
 Definition is_ierr (a : ires) : bool :=
   match a with IErrValue | IErrAttr => true | _ => false end.
 
+(* the Add arm: `indices = set([infere_type(i) for i in expr.args])`: every call runs, in the order
+   of the args, so the first one that raises decides; then the set must be a singleton *)
+Definition add_res (rs : list ires) : ires :=
+  match find is_ierr rs with
+  | Some e => e
+  | None => match rs with
+            | [] => IErrValue
+            | r0 :: rest => if forallb (ires_eqb r0) rest then r0 else IErrValue
+            end
+  end.
+
 Fixpoint infer (e : expr) : ires :=
   match e with
   | Form _ k _ => IOk k
@@ -374,24 +385,7 @@ Fixpoint infer (e : expr) : ires :=
                   | _ => IErrAttr
                   end
       end
-  | Add ts =>
-      (* set([infere_type(i) for i in expr.args]) must be a singleton *)
-      (fix go (l : list expr) (seen : option ires) : ires :=
-         match l with
-         | [] => match seen with Some r => r | None => IErrValue end
-         | t :: r =>
-             let rt := infer t in
-             if is_ierr rt then rt else
-             match seen with
-             | None => go r (Some rt)
-             | Some s => if ires_eqb s rt then go r seen
-                         else (fix err_or (l : list expr) : ires :=   (* the remaining calls still run *)
-                                 match l with
-                                 | [] => IErrValue
-                                 | t :: r => let rt := infer t in if is_ierr rt then rt else err_or r
-                                 end) r
-             end
-         end) ts None
+  | Add ts => add_res (map infer ts)
   | Cst _ _ => INone
   | Mul _ _ _ => INone
   end.
